@@ -140,6 +140,23 @@ def run_clause(clause, n, seed, shard, nshards, wall_cap):
     if n <= 0:
         return st
 
+    if clause.machine is not None:
+        from hypothesis.stateful import run_state_machine_as_test
+
+        def record(case):
+            if time.time() - t0 > wall_cap or st.timeouts >= 2 or (FAIL_FAST and _real_failures(st)):
+                st.budget_exhausted = True
+                return
+            st.add(case, run_case(clause, case))
+
+        Machine = clause.machine(record)
+        run_state_machine_as_test(
+            hseed(seed)(Machine),
+            settings=settings(max_examples=n, stateful_step_count=clause.machine_steps, database=None, deadline=None, derandomize=False,
+                              report_multiple_bugs=False, phases=[Phase.generate], suppress_health_check=list(HealthCheck)))
+        st.wall = time.time() - t0
+        return st
+
     @hseed(seed)
     @settings(max_examples=n, database=None, deadline=None, derandomize=False,
               report_multiple_bugs=False, phases=[Phase.generate],
